@@ -739,14 +739,25 @@ package rtpconn
 //@   -- C12: a queued membership event may be handled after the client has left its group (c.group == nil)
 //@   assert at call pushDownConn same-group: c.group != nil
 //@   assert at call Name#1 member: c.group != nil
+//@   -- C11: a permission change decided by an operator of a group is applied only while the client is still a member of THAT group
+//@   -- (the change used to carry no group and followed the client into the next group it joined: repaired)
+//@   assert at call addnew in-deciding-group: c.group != nil && c.group.name == a$7.group
+//@   assert at call remove in-deciding-group: c.group != nil && c.group.name == a$7.group
 //@
 //@ -- the in-place editors of a permission list write only into that list's own backing array (or a new one)
+//@ -- C11: a revoked permission is gone from the list, however many times it was listed (a token can carry a permission twice)
 //@ func remove
 //@   safe
 //@   props C11 C12
 //@   modifies full(l)
-//@   invariant loop 1 range: -1 <= rangeindex && rangeindex < len(l)
+//@   invariant loop 1 range: -1 <= rangeindex && rangeindex < len(l) && 0 <= j && j <= rangeindex + 1
+//@   invariant loop 1 clean: forall k int :: 0 <= k && k < j ==> l[k] != v
+//@   invariant loop 1 rest-kept: forall k int :: rangeindex < k && k < len(l) ==> l[k] == old(l[k])
+//@   invariant loop 1 all-kept-so-far: (forall k int :: 0 <= k && k <= rangeindex ==> old(l[k]) != v) ==> j == rangeindex + 1
 //@   ensures shorter: len(result) <= len(l)
+//@   ensures gone: forall k int :: 0 <= k && k < len(result) ==> result[k] != v
+//@   -- (and a list that did not hold v is returned as it was)
+//@   ensures untouched: (forall k int :: 0 <= k && k < len(l) ==> old(l[k]) != v) ==> len(result) == len(l)
 //@ func addnew
 //@   safe
 //@   props C11 C12
